@@ -305,6 +305,63 @@ def r10_5(ctx, fx):
     ctx.floor(rid, n, 12, "orderings of the two component values interpreted")
 
 
+def r10_6(ctx, fx):
+    import itertools
+    from pplv import absint
+    rid = "R10.6"
+    ctx.rule(rid, "the product asserts about a constraint exactly what a component asserts: for the intersection of two components, `is included`, `is disjoint` and `saturates` hold as soon as ONE component has them and nothing lets the product conclude a flag neither component reports (a component lying on the hyperplane of a strict inequality saturates it and is disjoint from it, not included). relation_with(Constraint) and relation_with(Congruence) are interpreted on the 64 pairs of component answers: the result is the union of the two")
+    flags = ("is_included", "is_disjoint", "saturates")
+    subsets = [frozenset(c) for k in range(4) for c in itertools.combinations(flags, k)]
+    n = 0
+    seen = set()
+    for f in fx.functions:
+        if f.clsn != "Partially_Reduced_Product" or f.name != "relation_with" or not f.flag("pattern") or not f.cfg or len(f.params) != 1:
+            continue
+        if "Generator" in f.params[0]["t"] or (f.relfile, f.line) in seen:
+            continue
+        seen.add((f.relfile, f.line))
+        bad = []
+        for r1 in subsets:
+            for r2 in subsets:
+                def atom(e, env, it, r1=r1, r2=r2):
+                    k = e["k"]
+                    t = f.text(e).replace(" ", "")
+                    if k in ("binop", "ocall") and e.get("op") == "&&" and "Poly_Con_Relation" in (e.get("t") or ""):
+                        a, b = e["c"][-2:]
+                        return {x | y for x in it.ev(a, env) for y in it.ev(b, env)}
+                    if k in ("call", "mcall"):
+                        cn = f.call_name(e).lstrip("~")
+                        if "Poly_Con_Relation" in (e.get("ccls") or "") and cn in flags + ("strictly_intersects", "nothing") and not f.call_args(e):
+                            return {frozenset() if cn == "nothing" else frozenset((cn,))}
+                        if cn == "implies" and f.call_obj(e) is not None:
+                            o = f.text(f.deref(f.call_obj(e))).strip()
+                            if o in ("relation1", "relation2"):
+                                arg = it.ev(f.call_args(e)[0], env)
+                                rel = r1 if o == "relation1" else r2
+                                return {a_ <= rel for a_ in arg}
+                        if cn == "relation_with" and t.startswith(("d1.", "d2.")):
+                            return {r1 if t.startswith("d1.") else r2}
+                    return None
+                it = absint.CfgInterp(f, atom)
+                try:
+                    got = set()
+                    for ret, env, ev_ in it.run({}):
+                        got |= it.ev(ret["c"][0], env)
+                except absint.Unknown as ex:
+                    raise F.AnalysisBroken("R10.6: %s: %s — the interpretation does not know this form" % (f.name, ex))
+                n += 1
+                if got != {r1 | r2}:
+                    bad.append((r1, r2, got))
+        inst = "Partially_Reduced_Product::relation_with(%s)" % f.params[0]["t"].split("::")[-1].replace("&", "").replace("const", "").strip()
+        show = lambda r: " && ".join(sorted(r)) if r else "nothing"
+        if bad:
+            for r1, r2, got in bad[:6]:
+                ctx.violation(rid, "%s on (%s ; %s)" % (inst, show(r1), show(r2)), f.where(), "the components answer %s and %s, the product answers %s" % (show(r1), show(r2), " or ".join(sorted(show(g) for g in got))))
+        else:
+            ctx.ok(rid, inst, f.where())
+    ctx.floor(rid, n, 128, "pairs of component answers interpreted")
+
+
 def run(ctx):
     ctx.explanation = ("C10 structural clauses on Partially_Reduced_Product and its four reductions: both components transformed alike, sound "
                        "connectives for predicates, reductions shrink only, symmetric halves mirror each other; decides these clauses, not that the "
@@ -317,6 +374,7 @@ def run(ctx):
     r10_3(ctx, fx)
     r10_4(ctx, fx)
     r10_5(ctx, fx)
+    r10_6(ctx, fx)
     # the worker behind refine_with_constraints(), which the constraints-based reductions call on a Box component
     from rules.c03 import r3_9
     r3_9(ctx)
